@@ -922,7 +922,7 @@ def parts(tier):
             "loads",
             run_loads,
             strategy=load_cases(12 if quick else 18),
-            n={"quick": 2000, "thorough": 20000},
+            n={"quick": 2000, "thorough": 100000},
             require={
                 "load-permutations>=2": 200,
                 "load-permutation-compared": 200,
@@ -949,7 +949,7 @@ def parts(tier):
             "histories",
             run_history,
             strategy=history_cases(10 if quick else 14, 7 if quick else 10, 5 if quick else 7),
-            n={"quick": 3000, "thorough": 30000},
+            n={"quick": 3000, "thorough": 150000},
             require={
                 "history-fully-compared": 200,
                 "relativized": 200,
